@@ -19,15 +19,6 @@ correspondence domain (assumption "inputs are ASCII" of the check).
 namespace PolyVerif.Props.C04
 open PolyVerif PolyVerif.Seqhash PolyVerif.Transform PolyVerif.Spec
 
-theorem tag_length (ty : String) (c d : Bool) : (tag ty c d).length = 3 := rfl
-
-/-- modulo C12: the hash depends on the rotation function only through its values -/
-theorem hashWith_congr {rot rot' : Str → Option Str} (h : ∀ s, rot s = rot' s)
-    (blake : List UInt8 → List UInt8) (s : Str) (ty : String) (c d : Bool) :
-    hashWith rot blake s ty c d = hashWith rot' blake s ty c d := by
-  have : rot = rot' := funext h
-  rw [this]
-
 /-! ### rotation -/
 
 /-- hashing any rotation of a sequence as a circular molecule yields the identical seqhash
